@@ -33,6 +33,7 @@ PREDICTS = {
     'C10-scala-default': {'scala-default', 'sc-grammar'},
     'C10-scala-keyword-name': {'sc-grammar'},
     'C10-scala-toplevel-alias': {'sc-grammar'},
+    'C10-scala-content-key': {'sc-grammar', 'identifier', 'template'},
     'C10-swift-label': {'swift-label'},
     'C10-python-generic-alias': {'py-grammar', 'py-import-at-generic-alias'},
     'C10-python-empty-union': {'py-syntax'},
@@ -665,6 +666,7 @@ WITNESSES = [
     ('scala', {'package': 'p'}, '#[typeshare]\npub struct A { pub x: i8 }\n#[typeshare]\npub enum E { U, V }\n', None),
     ('scala', {'package': 'p'}, '#[typeshare]\npub type Al = Vec<u32>;\n#[typeshare]\npub struct A { pub x: u8 }\n#[typeshare]\npub enum E { U, V }\n', 'C10-scala-toplevel-alias'),
     ('scala', {'package': 'com.x'}, '#[typeshare]\npub struct S { pub r#type: String, pub val: u8 }\n', 'C10-scala-keyword-name'),
+    ('scala', {'package': 'com.x'}, '#[typeshare]\n#[serde(tag = "t", content = "my-content")]\npub enum E { A(String), B { x: u8 } }\n', 'C10-scala-content-key'),
     ('scala', {'package': 'com.x'}, '#[typeshare]\npub struct A { #[serde(default)] pub x: String }\n', 'C10-scala-default'),
     ('swift', {}, '#[typeshare]\npub struct A { pub r#let: String, pub inout: u8 }\n', 'C10-swift-label'),
     ('python', {}, '#[typeshare]\npub type A<T> = Vec<T>;\n', 'C10-python-generic-alias'),
